@@ -42,6 +42,14 @@ Fixpoint pick_from_f (c : cellf) (l : list cellf) : cellf :=
 Definition pick_f (l : list cellf) : cellf :=
   match l with [] => (0, MNone) | c :: l' => pick_from_f c l' end.
 
+(** [pick_f (candidates_f ..)] without building the list: the same comparisons in the same order *)
+Definition better (c' c : cellf) : cellf := if fst c' <? fst c then c' else c.
+Definition cell_f (fl : flags) (x y : wch) (up left diag : N) (sw : option N) : cellf :=
+  let c2 := better (N.succ left, MInsert) (N.succ up, MDelete) in
+  let c3 := if cl_eqb (fst x) (fst y) then better (diag, MKeep) c2
+            else if sub_ok_f fl x y then better (N.succ diag, MReplace) c2 else c2 in
+  match sw with Some d2 => better (N.succ d2, MSwap) c3 | None => c3 end.
+
 (** cost of the first cell of a row part (0 past the end, as [nth _ _ cell0]) *)
 Definition hdc (l : list cellf) : N := match l with [] => 0 | c :: _ => fst c end.
 
@@ -57,7 +65,7 @@ Fixpoint row_tail_f (fl : flags) (ap : option wch) (x : wch) (bp : option wch) (
               | Some x2, Some y2 => if swap_ok_f fl x x2 y y2 then Some (hdc p2s) else None
               | _, _ => None
               end in
-    let c := pick_f (candidates_f fl x y up left diag sw) in
+    let c := cell_f fl x y up left diag sw in
     c :: row_tail_f fl ap x (Some y) b' (match bp with Some _ => tl p2s | None => p2s end)
                     (tl prevs) up (fst c)
   end.
@@ -205,6 +213,13 @@ Proof.
   - destruct sw; cbn [option_map map fst snd]; rewrite ?Nat2N.inj_succ; reflexivity.
 Qed.
 
+Lemma cell_f_pick fl x y up left diag sw :
+  cell_f fl x y up left diag sw = pick_f (candidates_f fl x y up left diag sw).
+Proof.
+  unfold cell_f, candidates_f, better.
+  destruct (cl_eqb (fst x) (fst y)); [|destruct (sub_ok_f fl x y)]; destruct sw; reflexivity.
+Qed.
+
 Lemma row_tail_f_eq fl ap x prev2 prev : forall b bp j left,
   match bp with None => j = 1%nat | Some _ => (2 <= j)%nat end ->
   row_tail_f fl (option_map wc ap) (wc x) (option_map wc bp) (wsm b)
@@ -230,7 +245,7 @@ Proof.
     unfold swap_ok_f, swap_ok, wc. cbn [fst snd]. rewrite hdc_skipn.
     destruct (with_swap fl && cl_eqb x y2 && cl_eqb x2 y && (negb (sid fl) || negb (cl_ws x) && negb (cl_ws x2)));
       reflexivity. }
-  rewrite Hsw, candidates_f_map, pick_f_map. f_equal.
+  rewrite Hsw, cell_f_pick, candidates_f_map, pick_f_map. f_equal.
   assert (Hp2 : match option_map wc bp with
                 | Some _ => tl (map cf (skipn (j - 2) prev2))
                 | None => map cf (skipn (j - 2) prev2)
